@@ -16,7 +16,7 @@ META = {
     "bounds": {
         "quick": "every C03-quick structure of every defined identity; cut lengths: all if <= 24 cuts, else the last 8 bytes plus a seeded "
                  "sample of 16 cuts; truncated payload bytes all symbolic; free mode: every defined identity, payload lengths 2..12, counters 0..2 + one beyond",
-        "thorough": "C03-thorough structures (MSM: symbolic mask positions up to 3 cells, larger shapes with seeded positions), every cut length if <= 96 cuts else the last 24 bytes plus 72 sampled cuts (MSM: 48 / 16 + 32); free mode lengths 2..40"},
+        "thorough": "C03-thorough structures except counters at their maximum and MSM shapes above 12 cells (MSM: symbolic mask positions up to 3 cells, larger shapes with seeded positions), every cut length if <= 96 cuts else the last 24 bytes plus 72 sampled cuts (MSM: 48 / 16 + 32); free mode lengths 2..28"},
     "outside": "structures outside the C03 bound; cuts inside the identity header (C04)",
     "assumptions": ["structure fields that still lie inside the truncated payload keep the values of the complete message"],
 }
@@ -47,6 +47,8 @@ def run_cut(ident, tier, seed, res):
     rnd = random.Random(seed * 1000003 + hash(ident) % 65536)
     minlen = 3 if ident.startswith("4076") else 2
     for st in structs.structures(ident, tier, seed):
+        if tier != 'quick' and (st.get('mode', ('',))[0] == 'maxone' or st.get('nsat', 0) * st.get('nsig', 0) > 12):
+            continue      # thorough: the 255-item and the 15+-cell structures of C03-thorough are left to C03 (each truncation of them costs a full decode)
         if st.get('maskmode') not in ('value', 'high') and (st.get('nsat', 0) >= 2 if tier == 'quick' else st.get('nsat', 0) * st.get('nsig', 0) >= 4):
             continue      # symbolic mask positions only up to 1x1 (quick) / 3 cells (thorough) for truncation: positions do not move field boundaries
         try:
@@ -93,7 +95,7 @@ def run_free(ident, tier, seed, res):
     """free mode: identity and length fixed, everything else symbolic; success paths must fit"""
     from pyrtcm.rtcmmessage import RTCMMessage
     minlen = 3 if ident.startswith("4076") else 2
-    lengths = range(minlen, 13) if tier == 'quick' else range(minlen, 41)
+    lengths = range(minlen, 13) if tier == 'quick' else range(minlen, 29)
     num = int(ident[:4])
     for L in lengths:
         eng = sym.Engine(max_paths=400, conc_limit=4, conc_small=3)
